@@ -10,6 +10,7 @@ import (
 	"math/rand"
 	"net"
 	"os"
+	"strings"
 	"time"
 
 	"worldcoin/gnark-mbu/server"
@@ -35,6 +36,8 @@ func init() {
 		fails := 0
 		var firstFail string
 		lateAlive := 0
+		sequentialStops := 0
+		stableFor := 500 * time.Millisecond
 		progress, _ := os.Create("stress-progress.txt")
 		// a small pool of reserved addresses, re-used round robin (every iteration re-binds addresses a stopped instance has just released)
 		pool := make([]string, 16)
@@ -58,27 +61,52 @@ func init() {
 				done := make(chan struct{})
 				if cs.Mode == "aligned" {
 					go func() { job.RequestStop(); job.AwaitStop(); close(done) }()
-					// wait until both start goroutines and both waiters sit at their gates
-					dl := time.Now().Add(10 * time.Second)
-					for len(g.waitingSet()) < 4 && time.Now().Before(dl) {
-						time.Sleep(50 * time.Microsecond)
-					}
-					if ws := g.waitingSet(); len(ws) < 4 {
-						started := 0
+					// wait until both start goroutines and both waiters sit at their gates.  An implementation may also stop the two servers
+					// one after the other (the second waiter reaches shutdown() only once the first server is down): then three gates are
+					// reached and nothing more happens — that is a design choice, not a defect, and the cycle goes on with what is there.
+					count := func(ws []string) (started, stopping int) {
 						for _, k := range ws {
-							if len(k) > 15 && k[:15] == "srv.start.begin" {
+							if strings.HasPrefix(k, "srv.start.begin") {
 								started++
 							}
+							if strings.HasPrefix(k, "srv.shutdown.begin") {
+								stopping++
+							}
 						}
-						if started == 2 {
-							// both start goroutines are at their hooks, RequestStop has been called, yet no waiter reached shutdown(): the stop was lost
-							g.openAll()
-							emit(Result{ID: fmt.Sprintf("iter%d", it), OK: false, Kind: "deadlock",
-								Detail: fmt.Sprintf("iteration %d cycle %d: RequestStop was called right after Run but 10 s later no waiter goroutine has begun shutdown (lost wake-up); hooks reached: %v", it, cyc, ws),
-								Case:   map[string]interface{}{"iterations": it + 1, "mode": cs.Mode, "cycles": cs.Cycles}})
-							return
+						return
+					}
+					dl := time.Now().Add(10 * time.Second)
+					var stable time.Time
+					for time.Now().Before(dl) {
+						ws := g.waitingSet()
+						if len(ws) >= 4 {
+							break
 						}
+						if st, sp := count(ws); st == 2 && sp >= 1 {
+							if stable.IsZero() {
+								stable = time.Now()
+							} else if time.Since(stable) > stableFor {
+								break
+							}
+						}
+						time.Sleep(50 * time.Microsecond)
+					}
+					ws := g.waitingSet()
+					if started, stopping := count(ws); started == 2 && stopping == 0 {
+						// both start goroutines are at their hooks, RequestStop has been called, yet no waiter reached shutdown(): the stop was lost
+						g.openAll()
+						emit(Result{ID: fmt.Sprintf("iter%d", it), OK: false, Kind: "deadlock",
+							Detail: fmt.Sprintf("iteration %d cycle %d: RequestStop was called right after Run but 10 s later no waiter goroutine has begun shutdown (lost wake-up); hooks reached: %v", it, cyc, ws),
+							Case:   map[string]interface{}{"iterations": it + 1, "mode": cs.Mode, "cycles": cs.Cycles}})
+						return
+					} else if started < 2 {
 						die("stress: gates not reached: %v", ws)
+					}
+					if len(ws) < 4 {
+						sequentialStops++
+						if sequentialStops >= 3 {
+							stableFor = 2 * time.Millisecond // this implementation stops its servers one after the other: do not wait for a fourth gate
+						}
 					}
 					// release ListenAndServe and Shutdown of each server (almost) together
 					order := rng.Intn(2)
@@ -94,6 +122,7 @@ func init() {
 						}
 						spin(d2)
 					}
+					g.openAll() // hooks reached later (a waiter that stops its server after the other one) pass freely
 				} else {
 					spin(d1)
 					go func() { job.RequestStop(); job.AwaitStop(); close(done) }()
@@ -142,7 +171,7 @@ func init() {
 			}
 		}
 		r := Result{ID: "stress-" + cs.Mode, OK: fails == 0, Kind: "srv-stress", Detail: firstFail,
-			Observed: map[string]interface{}{"iterations": cs.Iterations, "cycles": cs.Cycles, "start_goroutine_alive_when_await_returned": lateAlive}}
+			Observed: map[string]interface{}{"iterations": cs.Iterations, "cycles": cs.Cycles, "start_goroutine_alive_when_await_returned": lateAlive, "cycles_with_sequential_shutdown": sequentialStops}}
 		if fails > 0 {
 			r.Case = map[string]interface{}{"iterations": cs.Iterations, "mode": cs.Mode, "cycles": cs.Cycles}
 		}
